@@ -18,7 +18,16 @@ pub fn run_retain(reg: &PortableRegistry, keep: &[u32], id: &str, out: &mut Out)
         Err(_) => out.end(" panic"),
         Ok((r2, m)) => {
             let pairs: Vec<(u32, u32)> = m.into_iter().collect();
-            out.end(&format!(" ok {} {}", pregistry(&r2), plist(&pairs, |(a, b)| format!("{} {}", a, b))));
+            // retaining everything from the result once more (theorem C10canon.retain_canonical: the identity)
+            let mut again = r2.clone();
+            let canon = match catch_unwind(AssertUnwindSafe(|| {
+                let m2 = again.retain(|_| true);
+                (again, m2)
+            })) {
+                Err(_) => 2,
+                Ok((r3, m2)) => (r3 == r2 && m2.len() == r2.types.len() && m2.iter().all(|(a, b)| a == b)) as u8,
+            };
+            out.end(&format!(" ok {} {} {}", pregistry(&r2), plist(&pairs, |(a, b)| format!("{} {}", a, b)), canon));
         }
     }
 }
